@@ -13,10 +13,8 @@
    D∘E = id is only true on genuine byte strings.)  The stream-like modes (CTR, CTR-bitlen,
    CFB) need E_len only. *)
 From Coq Require Import List NArith Bool Lia Arith.
-From IMB Require Import Lib.Bytes Spec.AES Spec.AESModes Proofs.C01Lists.
+From IMB Require Import Lib.Bytes Spec.AES Spec.AESModes Struct.TailOps Proofs.C01Lists.
 Import ListNotations.
-
-Definition blk_ok (b : bytes) : Prop := length b = 16 /\ bytes_ok b = true.
 
 Lemma blk_ok_xor : forall a b, blk_ok a -> blk_ok b -> blk_ok (xor_bytes a b).
 Proof.
@@ -76,32 +74,6 @@ Section LengthOnly.
       now rewrite firstn_skipn.
     - rewrite skipn_all2 by lia. rewrite firstn_all2 by lia.
       rewrite chunks_nil. cbn [length ctr_ks xor_bytes]. now rewrite !app_nil_r.
-  Qed.
-
-  Lemma concat_length_le : forall n (cs : list bytes),
-    Forall (fun c => length c <= n) cs -> length (concat cs) <= n * length cs.
-  Proof.
-    induction 1; [simpl; lia|]. cbn [concat length]. rewrite app_length. lia.
-  Qed.
-
-  Lemma chunks_count_bound : forall l, length l <= 16 * length (chunks 16 l).
-  Proof.
-    intros l. rewrite <- (chunks_concat 16 l) at 1 by lia.
-    apply concat_length_le. eapply Forall_impl; [|apply (chunks_Forall_len 16 l); lia].
-    simpl. intros. lia.
-  Qed.
-
-  Lemma chunks_count_eq : forall n a b, 0 < n -> length a = length b ->
-    length (chunks n a) = length (chunks n b).
-  Proof.
-    intros n a b Hn. revert b.
-    apply (chunk_ind n Hn (fun a => forall b, length a = length b ->
-             length (chunks n a) = length (chunks n b))); clear a.
-    - intros b H. destruct b; [reflexivity|discriminate].
-    - intros a Hne IH b H.
-      assert (b <> []) by (apply nonnil_length; apply nonnil_length in Hne; lia).
-      rewrite (chunks_cons n a), (chunks_cons n b) by assumption. cbn [length]. f_equal.
-      apply IH. rewrite !skipn_length. lia.
   Qed.
 
   Definition ctr_w_ks (nb : nat) (ctrblk : bytes) (len : nat) : bytes :=
@@ -172,13 +144,6 @@ Section LengthOnly.
 
   (* -------------------------------------------------------------------------------------- *)
   (* CTR, bit length *)
-
-  Definition ctr_bits_nbytes (bitlen : N) : nat := N.to_nat (N.shiftr (bitlen + 7) 3).
-  (* mask of the bits of the last byte that are preserved from dst *)
-  Definition ctr_bits_keep (bitlen : N) : N := N.shiftr 255 (N.land bitlen 7).
-  (* merge of "changed bits from a, kept bits from d" *)
-  Definition merge_keep (keep a d : N) : N :=
-    N.lor (N.land a (N.lxor keep 255)) (N.land d keep).
 
   Lemma ctr_bits_gen_unfold : forall iv msg bitlen dst,
     ctr_bits_gen E iv msg bitlen dst =
@@ -737,20 +702,8 @@ Section RoundTrips.
     apply cbcs_enc_blocks_length.
   Qed.
 
-  (* The chaining value the encryption loop holds after the last block (what the kernel
-     stores to job->cipher_fields.CBCS.next_iv) *)
-  Fixpoint cbcs_enc_final_chain (ch : bytes) (k : nat) (bs : list bytes) : bytes :=
-    match bs with
-    | [] => ch
-    | b :: r =>
-      match k with
-      | O => cbcs_enc_final_chain (E (xor_bytes b ch)) 9 r
-      | S k' => cbcs_enc_final_chain ch k' r
-      end
-    end.
-
   Lemma cbcs_last_blocks_enc : forall bs ch k,
-    cbcs_last_blocks ch k (cbcs_enc_blocks E ch k bs) = cbcs_enc_final_chain ch k bs.
+    cbcs_last_blocks ch k (cbcs_enc_blocks E ch k bs) = cbcs_enc_final_chain E ch k bs.
   Proof.
     induction bs as [|b bs IH]; intros ch k; [reflexivity|].
     destruct k; cbn [cbcs_enc_blocks cbcs_last_blocks cbcs_enc_final_chain]; apply IH.
@@ -759,7 +712,7 @@ Section RoundTrips.
   (* next_iv computed from the ciphertext = final chaining value of the encryption *)
   Theorem cbcs_next_iv_enc : forall iv msg, length iv = 16 ->
     cbcs_next_iv iv (cbcs_enc_gen E iv msg) =
-    cbcs_enc_final_chain iv 0 (fst (blocks16 msg)).
+    cbcs_enc_final_chain E iv 0 (fst (blocks16 msg)).
   Proof.
     intros iv msg Li. unfold cbcs_next_iv, cbcs_enc_gen.
     destruct (blocks16 msg) as [bs tl] eqn:B.
@@ -806,4 +759,29 @@ Proof.
     apply Nat.div_str_pos. lia. }
   destruct (Nat.leb (length blocks) 0) eqn:E0; [apply Nat.leb_le in E0; lia|].
   replace (length blocks - 0 - 1) with (length blocks - 1) by lia. reflexivity.
+Qed.
+
+(* all output-length facts, for one length-preserving block function *)
+Theorem mode_output_lengths :
+  forall E : bytes -> bytes,
+  (forall b, length b = 16 -> length (E b) = 16) ->
+  (forall msg, length (ecb_gen E msg) = length msg) /\
+  (forall iv msg, length iv = 16 -> length (cbc_enc_gen E iv msg) = length msg) /\
+  (forall iv msg, length iv = 12 \/ length iv = 16 -> length (ctr_gen E iv msg) = length msg) /\
+  (forall iv msg bitlen dst, 16 <= length iv -> ctr_bits_nbytes bitlen <= length msg ->
+     length (ctr_bits_gen E iv msg bitlen dst) = ctr_bits_nbytes bitlen) /\
+  (forall iv msg, length iv = 16 -> length (cfb_enc_gen E iv msg) = length msg) /\
+  (forall iv msg, length iv = 16 -> length (cfb_dec_gen E iv msg) = length msg) /\
+  (forall iv msg, length iv = 16 -> length (docsis_enc_gen E iv msg) = length msg) /\
+  (forall iv msg, length iv = 16 -> length (cbcs_enc_gen E iv msg) = length msg).
+Proof.
+  intros E H. repeat split.
+  - now apply ecb_length.
+  - now apply cbc_enc_length.
+  - now apply ctr_length.
+  - now apply ctr_bits_length.
+  - now apply cfb_enc_length.
+  - now apply cfb_dec_length.
+  - now apply docsis_enc_length.
+  - now apply cbcs_enc_length.
 Qed.
